@@ -46,7 +46,7 @@ TEMP_RE = re.compile(r'\.[0-9a-fA-F]{8}$')
 
 def dest_path(tmpdir, x):
     """Destination path of a path download; ``name_len`` pads the base name (255 = the file-system maximum)."""
-    name = f'dst-{x.idx}'
+    name = x.spec.get('dest_name') or f'dst-{x.idx}'
     n = x.spec.get('name_len')
     if n:
         name = name + '-' + 'n' * (n - len(name) - 1)
@@ -231,7 +231,7 @@ def prepare_xfer(obs, x):
         if dst in ('seekable', 'nonseekable') and t.get('write_ret'):
             x.dest.write_ret = t['write_ret']
         elif dst == 'fifo':
-            path = os.path.join(tmpdir, f'fifo-{x.idx}')
+            path = os.path.join(tmpdir, t.get('dest_name') or f'fifo-{x.idx}')
             real = path + '-target' if t.get('symlink') else path
             os.mkfifo(real)
             if t.get('symlink'):
@@ -264,7 +264,13 @@ def run(spec, hang_ok=False):
     w = World(spec)
     obs.world = w
     log, d = w.log, w.director
-    tmpdir = tempfile.mkdtemp(prefix='vf-', dir=scratch_root())
+    if spec.get('tmpdir_name'):
+        # (a directory with a GIVEN name: a later scenario of the same process can use the very same path strings again)
+        tmpdir = os.path.join(scratch_root(), spec['tmpdir_name'])
+        shutil.rmtree(tmpdir, ignore_errors=True)
+        os.makedirs(tmpdir)
+    else:
+        tmpdir = tempfile.mkdtemp(prefix='vf-', dir=scratch_root())
     obs.tmpdir = tmpdir
     if any(isinstance(t, dict) and t.get('relative') for t in spec.get('transfers', ())):
         # the caller names files RELATIVE to the working directory ('name', './name'); the harness keeps absolute paths for itself
